@@ -366,7 +366,18 @@ fn run(case: &Value, stats: &mut Stats) -> RunResult<()> {
                         }
                     }
                     Some(Attempt::Other(e)) => return Err(viol("second-open-wrong-error/during-teardown", format!("step {step}: expected the lock error or success, got: {e}"))),
-                    None => return Err(Fail::Harness("teardown race: opener left no result".into())),
+                    None => {
+                        // the opener did not return: it panicked inside the library (recorded by the hub)
+                        let panics = std::mem::take(&mut HUB.lock().thread_panics);
+                        let msg = panics.first().map(|(t, m)| format!("thread {t}: {m}")).unwrap_or_else(|| "no panic recorded".into());
+                        if panics.is_empty() {
+                            return Err(Fail::Harness("teardown race: opener left no result".into()));
+                        }
+                        return Err(viol(
+                            "second-open-panicked/during-teardown",
+                            format!("step {step}: open_with_min_len({min_len}) racing the last drop (holder grew the file by {grow} bytes first) panicked: {msg}"),
+                        ));
+                    }
                 }
                 if unflushed {
                     let probe = Database::open(&dir).map_err(|e| viol("open-refused-although-free", format!("step {step}: {e}")))?;
